@@ -317,7 +317,9 @@ CLAIMED["C19"] = (
     "normal length; face centres are midpoints; sign * normal points out of the cell; the signed normals of every "
     "cell sum to zero; sum sign (x_f . n_f) = dim * V and sum sign (x_f . n_f) x_f = (dim+1) V x_c.",
     "Node displacements in [-1/8, 1/8]^2 on unit-size cells (cells stay convex); at most 3 displaced nodes at a "
-    "time (2x2 Cartesian, 2x2 triangle, thorough also 3x2 Cartesian); 1-d grids with 3-5 cells on the x-axis; 3-d "
+    "time (2x2 Cartesian, 2x2 triangle, thorough also 3x2 Cartesian; the same grids with reversed face-node order "
+    "(fallback branch for inconsistently oriented grids) and 3x3 triangulations with one interior triangle listed "
+    "clockwise); 1-d grids with 3-5 cells (cells as short as 2^-30) on the x-axis; 3-d "
     "grids and embedded grids are outside. Equalities: z3 (nonlinear real arithmetic, on the cone of influence of "
     "the claim first); strict inequalities that hold with a margin: interval branch-and-bound with outward "
     "rounding (dReal-style, own implementation, mean-value form using the symbolic differentiator), z3 otherwise.",
